@@ -386,7 +386,7 @@ claim("C08",
   "lists as sets, the whole dependencies relation, and wf_graph of the abstraction) on the exhaustive family of graphs with <= 2 nodes (5 object edge kinds + item/union member/wrapper, every target incl. self "
   "and forward, every failure position), 3 nodes (quick: 2 object edge kinds exhaustive + 4000 sampled of the full family; thorough: full family exhaustive, 109k graphs), sampled 4-node graphs, random graphs "
   "to 20 nodes (cycles, inline classes in items/unions/properties, enums, Reference components, dangling and remote references, class-name pressure, several failures) and the abstraction of the atlas and "
-  "of generated whole documents: ~32k cases quick, ~690k thorough. Oracle (stage C): valid documents D x bad piece b (array without items, dangling/remote $ref, invalid default, mixed-type enum at "
+  "of generated whole documents: ~32k cases quick, ~450k thorough. Oracle (stage C): valid documents D x bad piece b (array without items, dangling/remote $ref, invalid default, mixed-type enum at "
   "property / list item / union member / additionalProperties / allOf member / parameter / body / response; incompatible allOf; optional path parameter; duplicate parameters; unparseable body; pairs in thorough): "
   "every module of D outside the owner's dependants* is byte-identical in D+b, D+b imports module by module in a fresh interpreter and every surviving model executes from_dict/to_dict, every piece and every "
   "lost/changed module is named by a diagnostic; failures are classified by the Coq guards on the abstracted graph of D+b (known finding only if the failing survivor reaches the missing class through an unrecorded edge).",
